@@ -330,6 +330,76 @@ func armorRoundTrip(c *vf.Ctx, g *pgpfix.GPG) {
 		}
 	}
 
+	// every key and value of up to 3 tokens over {a : space -} (keys non-empty and without ": ",
+	// values without leading/trailing space): one header, then the same header next to a
+	// second one; Encode -> Decode must return exactly the map written
+	{
+		toks := []string{"a", ":", " ", "-"}
+		var strs []string
+		var gen func(p string, d int)
+		gen = func(p string, d int) {
+			strs = append(strs, p)
+			if d == 0 {
+				return
+			}
+			for _, t := range toks {
+				gen(p+t, d-1)
+			}
+		}
+		gen("", 3)
+		okKey := func(k string) bool {
+			return k != "" && !strings.Contains(k, ": ") && !strings.HasPrefix(k, " ") && !strings.HasSuffix(k, " ") && !strings.HasPrefix(k, "-")
+		}
+		okVal := func(v string) bool { return !strings.HasPrefix(v, " ") && !strings.HasSuffix(v, " ") }
+		var keys, vals []string
+		for _, x := range strs {
+			if okKey(x) {
+				keys = append(keys, x)
+			}
+			if okVal(x) {
+				vals = append(vals, x)
+			}
+		}
+		type kv struct{ k, v string }
+		var grid []kv
+		for _, k := range keys {
+			for _, v := range vals {
+				grid = append(grid, kv{k, v})
+			}
+		}
+		c.ParallelFor(len(grid), func(i int) {
+			g := grid[i]
+			for two := 0; two < 2; two++ {
+				h := map[string]string{g.k: g.v}
+				if two == 1 {
+					if g.k == "Version" {
+						continue
+					}
+					h["Version"] = "x: y:"
+				}
+				out, err := encodeArmor("PGP MESSAGE", h, []byte("abc"), 0)
+				c.Eval(1)
+				if err != nil {
+					c.Violation("armor.Encode fails", err.Error())
+					return
+				}
+				blk, derr := armor.Decode(bytes.NewReader(out))
+				if derr != nil {
+					c.Violation("armor.Decode rejects armor.Encode output [header token grid]", map[string]any{"key": g.k, "value": g.v, "err": derr.Error()})
+					return
+				}
+				if !sameHeaders(blk.Header, h) || len(blk.Header) != len(h) {
+					c.Violation("armor round trip changes the headers [header token grid]", map[string]any{"key": g.k, "value": g.v, "got": blk.Header})
+					return
+				}
+				if body, err := readChunks(blk.Body, 0); err != nil || string(body) != "abc" {
+					c.Violation("armor round trip changes the body [header token grid]", map[string]any{"key": g.k, "value": g.v, "err": fmt.Sprint(err)})
+				}
+			}
+			c.Nontrivial("A/hdrgrid/" + g.k + "|" + g.v)
+		})
+	}
+
 	if g == nil {
 		return
 	}
